@@ -12,15 +12,17 @@ claim("C01",
       "Proof, for all inputs incl. offsets, holes and spare capacity, that the slice-backed set representations (String, Bytes, Array) and the "
       "set-operator dispatch compute the mathematical result: Has/With/Without/Count against pointwise membership `mem` and counting functions; "
       "GenericSet basics, Intersect/Difference/SymmetricDifference and most Union branches over an assumed finite-set contract of the frozen library; "
-      "builders asString/asArray/asBytes as functions of the set of tuples given." + COMMON,
+      "builders asString/asArray/asBytes as functions of the set of tuples given; the set comparisons (<) (<=) (<>) (<>=) against subset-and-cardinality "
+      "definitions (every member of the left operand is tested, no early answer, strictness by count)." + COMMON,
       "Not decided: both-UnionSet loops of Intersect/Difference, Union's Map.Merge branch, Dict/Relation/UnionSet methods beyond Count, power set, "
-      "subset comparisons, =>/where (frozen-backed code; see DESIGN 11)." + NOTE_COMMON,
+      "=>/where (frozen-backed code; see DESIGN 11); finite-set cardinality facts (|s|<=|t| for s subset of t) are not used." + NOTE_COMMON,
       "DESIGN.md 4.C01, 10, 11")
 claim("C02",
       "Proof that every constructor/operator under contract re-establishes the canonical-form invariant (`validString/validBytes/validArray/validSet`, "
       "incl. hole counts = number of negative runes / nil items) and that Equal of sugar tuples, Number, String, GenericSet refines the extensional `eq`; "
       "violations of canonical form on the unchanged tree (Without next to a hole, negative @char) are known findings with regions." + COMMON,
-      "Hash/Equal coherence, UnionSet/Dict/Relation/Array/Bytes Equal and NewOffsetArray's postconditions are not decided." + NOTE_COMMON,
+      "GenericTuple, UnionSet, Array and Bytes Equal are proved extensional and GenericTuple/EmptySet Hash coherent with Equal (over the assumed content-hash "
+      "contract of frozen.Map); Dict/Relation Equal, Hash of the other types and NewOffsetArray's postconditions are not decided." + NOTE_COMMON,
       "DESIGN.md 4.C02, 10, 11")
 claim("C03",
       "Frame proof (`assigns fresh-only`/`nothing`): for every function under contract that stores, appends or copies, no heap row that existed at entry "
@@ -46,14 +48,16 @@ claim("C06",
       "Refinement proof of every Kind() and of Less for numbers, the four sugar tuples, String, Bytes, Array, EmptySet, TrueSet against axioms defining "
       "`less`/`kind`, lemmas for irreflexivity, asymmetry, trichotomy w.r.t. `eq`, transitivity and the cross-kind rule, and the derived operators "
       "(< > <= >=, ValueLess, dictEntryTupleSort, projectedValues.Less). Incomparable pairs of the unchanged tree are known findings." + COMMON,
-      "Less of GenericTuple, GenericSet, UnionSet, Dict, Relation and the sort-based consumers (orderby, rank, min/max) are not under contract; "
+      "GenericTuple.Kind/Less (incl. the strict reversal under @neg), UnionSet.Less and Relation.Less (ordered enumeration) are under contract since the second wave; "
+      "Less of GenericSet and Dict and the sort-based consumers (orderby, rank, min/max) are not; "
       "`aValue(v)` (v is one of the 18 value types) is assumed." + NOTE_COMMON,
       "DESIGN.md 4.C06, 10")
 claim("C07",
       "Order-independence proof for the set builders: asString/asArray/asBytes (and the iteration model in general) are verified with the enumeration "
       "order of maps and frozen sets left unconstrained, and their postconditions describe the result as a function of the SET of tuples given; the "
       "order-dependent last-wins behaviour on duplicate indices is a known finding." + COMMON,
-      "Only the builder half of the property: SetPattern, Rank/OrderBy, printing order and the absence of other seed channels are not decided." + NOTE_COMMON,
+      "Also: Relation.Less/UnionSet.Less consume only ORDERED enumerators (ghost enord/itord; a hash-ordered source fails the invariant) and SetPattern.Bind binds a "
+      "lone structured pattern only for a singleton set. Rank/OrderBy, printing order and the absence of other seed channels are not decided." + NOTE_COMMON,
       "DESIGN.md 4.C07, 10, 11")
 claim("C08",
       "Evaluation-level equivalences: ArrowExpr.Eval and Closure.CallAll/Function.Eval are proved against one predicate (e1 -> \\p e2 = (\\p e2)(e1) = let), "
@@ -62,9 +66,10 @@ claim("C08",
       "DESIGN.md 4.C08, 10, 11")
 claim("C09",
       "Per-pattern Bind contracts: Ident/ExtraElement/Expr/Fallback patterns, PatternExprPair, first-matching-arm semantics of cond with the arm's bindings, "
-      "Scope.MatchedUpdate against a scope model, ArrayPattern.Bind's safety and shape clauses, DictPattern safety; wrong bindings of the unchanged tree "
+      "Scope.MatchedUpdate against a scope model, ArrayPattern.Bind's safety and shape clauses, DictPattern.Bind (each entry matched against the value under its key, "
+      "fallback only for an absent key), TuplePattern.Bind (present/absent/exact attributes), SetPattern.Bind (non-set, singleton); wrong bindings of the unchanged tree "
       "(offsets ignored, holes read as values, repeated names compared by text, Bind errors swallowed) are known findings." + COMMON,
-      "ArrayPattern's per-item clauses are parked (not claimed); TuplePattern/SetPattern.Bind are not under contract; Expr.Eval/Pattern.Bind are interface-level assumed meanings." + NOTE_COMMON,
+      "ArrayPattern's per-item clauses and the `...rest` clauses of Dict/TuplePattern are parked (not claimed); Expr.Eval/Pattern.Bind are interface-level assumed meanings." + NOTE_COMMON,
       "DESIGN.md 4.C09, 10, 11")
 claim("C10",
       "Absence of run-time panics (index/slice bounds, nil dereference, unchecked type assertion, division by zero, negative make, nil-map write, explicit "
@@ -75,24 +80,27 @@ claim("C10",
 claim("C11",
       "Ownership contracts: every store to a lazily cached field/variable (GenericTuple names/buckets, positionalRelation metadata, std scopes) happens "
       "with its sync.Once/Mutex held, reads happen after the guard completed, and function literals run concurrently by the frozen library write no captured "
-      "variable (two that do are known findings)." + COMMON,
-      "Schedules, serial equivalence, the import cache protocol and other lazily initialised state are not decided." + NOTE_COMMON,
+      "variable (two that do are known findings); the import cache touches its map only under the mutex and wakes every waiter on every path once the "
+      "in-flight marker is resolved (the missing wake-up on the error path was found here and fixed)." + COMMON,
+      "Schedules, serial equivalence and other lazily initialised state are not decided; sync.Cond/Mutex are assumed contracts with ghost counters." + NOTE_COMMON,
       "DESIGN.md 4.C11, 10")
 claim("C12",
       "String-literal reader proved against a unit-by-unit decoding function (boundary invariant, per-iteration step incl. the post statement, termination, all "
-      "indexing in bounds) with its defects as known findings (skips after numeric escapes, panics on short/invalid escapes); structural facts of the printers "
-      "(offset prefixes, separators) via a ghost output string." + COMMON,
-      "Per-rune escape round trip of reprEscape, Dict/Relation/Tuple Format and number text are not decided; the lexer guarantee lexOK(s) is assumed." + NOTE_COMMON,
+      "indexing in bounds; the skip after numeric escapes was found here and fixed, panics on invalid escapes are a known finding); structural facts of the printers "
+      "(offset prefixes, separators, Bytes item list, tuple attribute names, Dict entries) via a ghost output string." + COMMON,
+      "Per-rune escape round trip of reprEscape, Relation Format and number text are not decided; the lexer guarantee lexOK(s) is assumed." + NOTE_COMMON,
       "DESIGN.md 4.C12, 10")
 claim("C13",
       "//bits.set safety/termination/error clause, Translator.FromArrai error clauses and jsonEscape/jsonUnescape kind clauses, with the silent changes and crashes "
       "of the unchanged tree as known findings." + COMMON,
-      "mask∘set round trip, ToArrai, CSV/YAML and the halves inside encoding/json are not decided; bit-operation axioms are assumed." + NOTE_COMMON,
+      "Also //bits.mask, FromArrai's number range, ToArrai kind clauses and the CSV encoder/decoder cell clauses (second wave). mask∘set as one theorem, YAML and "
+      "the halves inside encoding/json, encoding/csv are not decided; bit-operation axioms are assumed." + NOTE_COMMON,
       "DESIGN.md 4.C13, 10, 11")
 claim("C14",
       "//seq array matchers against the textbook window definition: search (sound, least, complete, terminating — its restart defect is a known finding), "
-      "contains/has_prefix/has_suffix/trim for dense arrays, safety+frame+termination of join/split/sub/repeat, dispatch wrappers return errors on mismatched kinds." + COMMON,
-      "String/Bytes branches rely on assumed contracts of strings/bytes; functional join/split/sub are not claimed." + NOTE_COMMON,
+      "contains/has_prefix/has_suffix/trim for dense arrays (has_suffix compared only the last element: found here and fixed), array join's kind and total length, "
+      "safety+frame+termination of split/sub/repeat, dispatch wrappers return errors on mismatched kinds." + COMMON,
+      "String/Bytes branches rely on assumed contracts of strings/bytes; positional clauses of join and functional split/sub are not claimed." + NOTE_COMMON,
       "DESIGN.md 4.C14, 10")
 claim("C16",
       "Confinement: on every path of compilePackage/importLocalFile that reaches a file reader the path satisfies underdir(path, importroot), from uninterpreted "
@@ -101,13 +109,16 @@ claim("C16",
       "DESIGN.md 4.C16, 10")
 claim("C17",
       "The actor loop of the engine verified arm by arm: exactly one reply per update request, state installed iff the update succeeded, every watcher notified with "
-      "the new state, no send on an actor-only channel from the actor goroutine, non-nil watcher before close (the wedge and the double-cancel crash are known findings)." + COMMON,
+      "the new state, no send on an actor-only channel from the actor goroutine (the wedge is a known finding), non-nil watcher before close (the double-cancel crash was "
+      "found here and fixed), observers identified by their own id." + COMMON,
       "Client interleavings and cross-goroutine ordering are not decided; channel operations are events, `go`/`select` are not interleaved." + NOTE_COMMON,
       "DESIGN.md 4.C17, 10")
 claim("C18",
       "Authority contracts: `auth` is required by the full library, file/network/exec operations; every Eval implementer, the //eval bodies and every native function "
-      "registered in the safe library is verified without it (static call-graph propagation for helpers); the escapes of the unchanged tree are known findings." + COMMON,
-      "The classification table of authority-bearing dependency functions (95_auth.spec) is an assumption; functional scope equality of contextualEval is not decided." + NOTE_COMMON,
+      "registered in the safe library is verified without it (static call-graph propagation for helpers); a sandbox's scope binds `//` to exactly the configured library. "
+      "Found here and fixed: //deprecated.exec in the safe library, //eval.value using the full library. Still open (known findings): the fallback of `//` to the full "
+      "library in an empty scope, imports resolved at compile time." + COMMON,
+      "The classification table of authority-bearing dependency functions (95_auth.spec) is an assumption." + NOTE_COMMON,
       "DESIGN.md 4.C18, 10")
 claim("C19",
       "Effect contracts on pkg/arrai/out.go with ghost filesystem state: dry run performs no mutation, every mutated path stays under PATH, unsupported entries are "
@@ -116,7 +127,7 @@ claim("C19",
       "DESIGN.md 4.C19, 10")
 claim("C20",
       "calcStats totals and runFailed, Report's error iff failure, literal true/false classification, one result per leaf, ForeachLeaf recursion with a callback "
-      "contract (nil leaves from sparse arrays are a known finding)." + COMMON,
+      "contract (nil leaves from sparse arrays crashed the runner: found here and fixed)." + COMMON,
       "Directory walk, report formatting and path strings are not decided." + NOTE_COMMON,
       "DESIGN.md 4.C20, 10")
 
